@@ -8,7 +8,7 @@ import os
 import sys
 import time
 
-from runner import (VERIF, BUILD, LEAN, build_lean, audit_axioms, grep_forbidden, ALLOWED_AXIOMS, regenerate_tables, code_drift)
+from runner import (VERIF, BUILD, LEAN, build_lean, audit_axioms, theorem_modules, grep_forbidden, ALLOWED_AXIOMS, regenerate_tables, code_drift)
 
 REPLAYS = os.path.join(VERIF, "replays")
 EVIDENCE = os.path.join(VERIF, "evidence")
@@ -59,7 +59,11 @@ class Check:
         terr = regenerate_tables()
         if terr:
             self.coverage["table_extraction_error"] = terr
-        ok, log = build_lean()
+        # this property's obligations: the modules stating its theorems (and what they import) + the driver
+        mods = theorem_modules(theorems)
+        targets = sorted(set(mods.values()))
+        ok, log = build_lean(targets + ["nsdriver"]) if targets else build_lean()
+        self.coverage["lean_modules"] = targets
         broken = []
         results = {}
         if not ok:
@@ -70,7 +74,10 @@ class Check:
         if hits:
             self.coverage["forbidden_constructs"] = hits[:20]
         try:
-            results = audit_axioms(theorems)
+            results = audit_axioms(theorems, imports=targets or None)
+            for t in theorems:
+                if t not in mods:
+                    results[t] = (False, ["theorem not found in lean/Properties"])
         except Exception as e:      # pragma: no cover
             results = {t: (False, ["audit failed: %s" % e]) for t in theorems}
         # thorough tier: independent re-check of the compiled modules with leanchecker (cached per source hash)
